@@ -102,6 +102,11 @@ func init() {
 		Run:    func(plan any, tape *Tape, ss uint64) *RunResult { return RunC08(plan.(*SrvPlan), tape, ss) },
 		Decode: func(b json.RawMessage) (any, error) { p := &SrvPlan{}; return p, json.Unmarshal(b, p) },
 	})
+	register(&Family{Prop: "C16", Name: "c16", Weight: 1,
+		Gen:    func(r *RNG) any { return GenC16(r) },
+		Run:    func(plan any, tape *Tape, ss uint64) *RunResult { return RunC16(plan.(*C16Plan)) },
+		Decode: func(b json.RawMessage) (any, error) { p := &C16Plan{}; return p, json.Unmarshal(b, p) },
+	})
 	register(cliFamily("C07", "c07", 1, GenC07, c07Online, c07Final,
 		func(w *CliWorld, r *RunResult) { r.Nontrivial = c07Nontrivial(w) }))
 	register(cliFamily("C02", "c02-split", 1, GenC02Split, nil, func(w *CliWorld) *Violation { return c02Final(w, "C02") },
